@@ -41,7 +41,7 @@ Init == \E m \in Methods, p \in Prefixes, k \in {{"R1", "R2"}, {"R1"}, {}}, lg \
 
 \* chooseBackend
 Choose(id, known) == IF id \in known THEN id ELSE "local"
-Tok == [salted |-> TRUE, leak |-> FALSE, foreign |-> FALSE]
+Tok == [salted |-> TRUE, leak |-> FALSE, foreign |-> FALSE, uuid |-> TRUE]
 
 Route ==
     /\ pc = "start"
